@@ -188,10 +188,23 @@ class ExprMixin:
             return v
         raise Unsupported("unary operator")
 
+    def _opaque(self, v, st):
+        from .values import AbsV, AbsSeq
+        if isinstance(v, (OpaqueV, AbsSeq)):
+            return True
+        return isinstance(v, Ref) and isinstance(st.deref(v), AbsV)
+
     # ------------------------------------------------------------------ truthiness
     def truth(self, v, st):
         if v is None:
             return False
+        if self.abstract() and self._opaque(v, st):
+            from .values import AbsSeq
+            if isinstance(v, AbsSeq):
+                return v.n > 0
+            if isinstance(v, Ref):
+                return st.nd_bool(f"truth@{st.deref(v).kind}")
+            return True
         if isinstance(v, (bool, int, float, str, bytes, tuple, dict, frozenset)):
             return bool(v)
         if isinstance(v, Sym):
@@ -224,11 +237,19 @@ class ExprMixin:
         raise Unsupported(f"truthiness of {v!r}")
 
     # ------------------------------------------------------------------ comparisons
+    def abstract(self):
+        return bool(getattr(self.contract, "abstract", False))
+
     def e_Compare(self, n, st):
         left = self.ev(n.left, st)
         parts = []
         for op, rn in zip(n.ops, n.comparators):
             right = self.ev(rn, st)
+            if self.abstract() and self._opaque(left, st) or self.abstract() and self._opaque(right, st):
+                # abstraction: a comparison involving an opaque value is an unknown boolean (all outcomes are explored)
+                parts.append(st.nd_bool(f"cmp@{n.lineno}:{n.col_offset}"))
+                left = right
+                continue
             parts.append(self.compare(type(op).__name__, left, right, st))
             left = right
             if parts[-1] is False:
@@ -335,6 +356,8 @@ class ExprMixin:
                     return False
                 return z3.Or(*[item.t == str_term(k) for k in ks]) if len(ks) > 1 else item.t == str_term(ks[0])
             return False
+        if self.abstract() and self._opaque(container, st):
+            return st.nd_bool(f"in@{st.deref(container).kind if isinstance(container, Ref) else 'seq'}")
         if isinstance(container, Ref):
             o = st.deref(container)
             if isinstance(o, DictV):
@@ -586,6 +609,11 @@ class ExprMixin:
         return self.get_item(v, idx, st)
 
     def get_slice(self, v, lo, hi, st):
+        from .values import AbsSeq
+        if isinstance(v, AbsSeq):
+            a = T.py_bound(None if lo is None else int_term(lo), v.n, z3.IntVal(0))
+            b = T.py_bound(None if hi is None else int_term(hi), v.n, v.n)
+            return AbsSeq(z3.If(b > a, b - a, 0))
         if isinstance(v, (str, bytes, tuple)) and all(x is None or isinstance(x, int) for x in (lo, hi)):
             return v[lo:hi]
         if isinstance(v, (str, bytes)) or (isinstance(v, Sym) and v.tag in ("str", "bytes")):
@@ -674,6 +702,10 @@ class ExprMixin:
                 k = self.ev(slice_node, st)
                 if isinstance(k, (str, int, bytes)):
                     o.items[k] = v
+                    return
+                if self.abstract():
+                    from .values import AbsV
+                    st.heap[obj.oid] = AbsV(fresh("absdict", T.I), kind="dict")      # contents are no longer tracked
                     return
                 raise Unsupported("symbolic key store")
             if isinstance(o, ListV) and o.items is not None and not isinstance(slice_node, ast.Slice):
